@@ -129,9 +129,10 @@ class Cont:
                 elif k == "da":
                     del mc[op[1]].attrs[op[2]]
                 elif k == "attach":
-                    mc[op[1]].meta[op[2]] = instance(op[2], n)
+                    # schema token "name+variant": variant only selects the instance from the corpus
+                    mc[op[1]].meta[op[2].split("+")[0]] = instance(op[2], n)
                 elif k == "detach":
-                    del mc[op[1]].meta[op[2]]
+                    del mc[op[1]].meta[op[2].split("+")[0]]
                 elif k == "copy":
                     if op[3]:
                         mc.copy(op[1], op[2], without_meta=True)
@@ -210,7 +211,7 @@ class CModel:
             elif k == "da":
                 del t[op[1]].attrs[op[2]]
             elif k == "attach":
-                node, s = op[1], op[2]
+                node, s = op[1], op[2].split("+")[0]
                 if self._kind(node) is None:
                     raise KeyError(node)
                 info = self.si.get(s)
@@ -218,9 +219,9 @@ class CModel:
                     raise TypeError(s)
                 if (node, s) in self.meta:
                     raise ValueError("exists")
-                self.meta[(node, s)] = (tuple(info["version"]), instance(s, n))
+                self.meta[(node, s)] = (tuple(info["version"]), instance(op[2], n))
             elif k == "detach":
-                del self.meta[(op[1], op[2])]
+                del self.meta[(op[1], op[2].split("+")[0])]
             elif k == "copy":
                 s, d = op[1], op[2]
                 t.copy(s, d)
@@ -513,7 +514,7 @@ def expand(task):
                 status = {"impl": ri, "model": rm}
                 v = None
                 if cfg.get("judge_outcome", True) and (ri == "ok") != (rm == "ok"):
-                    v = _viol("outcome", cfg, driver, hist, op, f"container op {ri}, reference {rm}", {"impl": ri.split(":")[0], "model": rm})
+                    v = _viol("outcome", cfg, driver, hist, op, f"container op {ri}, reference {rm}", _osig(op, ri, rm))
                 clean_fail = ri != "ok" and cfg.get("skip_checks_on_clean_fail") and raw_canon(cont) == base_key
                 if v is None and not clean_fail:
                     try:
@@ -543,6 +544,13 @@ def expand(task):
         if cont is not None:
             cont.close()
     return out
+
+
+def _osig(op, ri, rm):
+    sig = {"impl": ri.split(":")[0], "model": rm}
+    if op[0] in ("attach", "detach"):
+        sig["schema"] = op[2]
+    return sig
 
 
 def model_step(hist, op, si):
@@ -585,7 +593,7 @@ def check_history(task):
             model, rm = model_step(h, op, si)
             try:
                 if cfg.get("judge_outcome", True) and (ri == "ok") != (rm == "ok"):
-                    return _viol("outcome", cfg, driver, h, op, f"container op {ri}, reference {rm}", {"impl": ri.split(":")[0], "model": rm})
+                    return _viol("outcome", cfg, driver, h, op, f"container op {ri}, reference {rm}", _osig(op, ri, rm))
                 v = run_checks(cont, model, cfg, h, op, {"impl": ri, "model": rm})
                 if v is not None:
                     return v
